@@ -269,7 +269,7 @@ def helper_units(only):
 def model_functions():
     txt = open(os.path.join(core.VERIF, 'contracts', 'isa_emit_model.c')).read()
     out = []
-    for m in re.finditer(r'^void (\w+) \(([^)]*)\) \{ REC \((\w+), (\w+)\); \}$', txt, re.M):
+    for m in re.finditer(r'^void (\w+) \(([^)]*)\) \{ REC \((\w+), (\w+)\);.*\}$', txt, re.M):
         params = []
         for prm in m.group(2).split(','):
             prm = ' '.join(prm.split())
@@ -309,6 +309,9 @@ def emit_units(only):
         o.append('__CPROVER_ensures(%s->n_output_insns == __CPROVER_old(%s->n_output_insns) + 1)' % (pn, pn))
         o.append('__CPROVER_ensures((int)LOG(%s)[__CPROVER_old(%s->n_output_insns)].opcode_index == %s)' % (pn, pn, idx))
         o.append('__CPROVER_ensures((int)LOG(%s)[__CPROVER_old(%s->n_output_insns)].prefix == (int)(%s))' % (pn, pn, pfx))
+        for prm, fld in (('size', 'size'), ('imm', 'imm'), ('offset', 'offset'), ('dest', 'dest'), ('src', 'src[0]'), ('src0', 'src[0]')):
+            if any(n == prm for t_, n in params[1:]):
+                o.append('__CPROVER_ensures(LOG(%s)[__CPROVER_old(%s->n_output_insns)].%s == %s)' % (pn, pn, fld, prm))
         o.append('__CPROVER_ensures((g_k >= 0 && g_k < __CPROVER_old(%s->n_output_insns)) ==> (g_old_idx == (int)LOG(%s)[g_k].opcode_index && g_old_pfx == (int)LOG(%s)[g_k].prefix));' % (pn, pn, pn))
         decl = ['OrcCompiler *%s = malloc (sizeof (OrcCompiler)); OrcX86Insn *lg = malloc (4 * sizeof (OrcX86Insn)); __CPROVER_assume (%s != NULL && lg != NULL); %s->output_insns = lg;' % (pn, pn, pn)]
         for t, n in params[1:]:
@@ -326,7 +329,7 @@ def emit_units(only):
             continue
         us.append(core.Unit(name, [path, '/repo/orc/orcx86.c', 'contracts/isa_stubs.c'], 'h_' + fn, enforce=fn, unwind=5, timeout=600, checks=[],
                             cbmc_flags=['--no-standard-checks'], defines=['ISA_FORM_AVX=1'], object_bits=10,
-                            contract_text='%s: appends exactly one record with opcode_index == %s and prefix == %s; earlier records keep their opcode index and prefix' % (fn, idx, pfx)))
+                            contract_text='%s: appends exactly one record with opcode_index == %s, prefix == %s and the operand fields (size, imm, offset, src, dest) it was given; earlier records keep their opcode index and prefix' % (fn, idx, pfx)))
     return us
 
 
@@ -405,47 +408,59 @@ def have_set(tname, fv):
 
 
 def replay_unit(r, fos):
-    """Compile each opcode the failing emitter is registered for, under the smallest flag set that selects it, with the
-    real library; report listing lines whose instruction needs an extension the flags do not grant."""
+    """Native replay: with the real library built from the current tree, compile the opcodes the failing emitter serves
+    (all opcodes for a backend helper) under EVERY subset of the target's feature bits, with array and with constant
+    operands, and report listing lines whose instruction needs an extension the flags do not grant."""
     m = re.match(r'(sse|avx|mmx):(\w+)$', r.unit.name)
     if not m:
         return {'reproduced': False, 'note': 'no native replay for this unit kind'}
     tname, fn = m.group(1), m.group(2)
     regs, base = registrations(tname)
-    if fn not in regs:
-        return {'reproduced': False, 'note': 'helper emitter: no single-opcode program selects it'}
+    ops = sorted(set(x[2] for x in regs.get(fn, [])))
     exe = native_demo()
     mn = mnemonic_needs()
     hits = []
-    tried = []
-    for flags, user, op in regs[fn]:
-        fv = flag_value(flags) | flag_value(base) | 512
-        out = subprocess.run([exe, tname, '%x' % fv, op], capture_output=True, text=True, timeout=60).stdout
-        tried.append('%s flags=0x%x' % (op, fv))
-        have = have_set(tname, fv)
+    seen = set()
+    n_prog = 0
+    for kval in ('01010101', '1', '80', 'ffffffff', '12345678'):
+        out = subprocess.run([exe, 'scan', tname, kval] + ops, capture_output=True, text=True, timeout=600).stdout
+        fv = 0
+        hdr = ''
         for line in out.split('\n'):
+            if line.startswith('# target='):
+                mh = re.match(r'# target=\w+ flags=0x([0-9a-f]+) opcode=(\w+) const=(\S+) result=0x([0-9a-f]+)', line)
+                fv = int(mh.group(1), 16)
+                hdr = '%s const=%s' % (mh.group(2), mh.group(3))
+                have = have_set(tname, fv)
+                n_prog += 1
+                continue
             mm_ = re.match(r'\s+(\w+)\s*(.*)$', line)
             if not mm_ or line.lstrip().startswith(('#', '.')):
                 continue
-            mnem, ops = mm_.group(1), mm_.group(2)
-            key = mnem[1:] if (mnem.startswith('v') and mnem[1:] in mn) else mnem
+            mnem, opnds = mm_.group(1), mm_.group(2)
+            isv = mnem.startswith('v') and mnem[1:] in mn
+            key = mnem[1:] if isv else mnem
             if key not in mn:
                 continue
-            if '%ymm' in ops:
+            if '%ymm' in opnds:
                 form = 'v256'
-            elif mnem.startswith('v') and mnem[1:] in mn:
+            elif isv:
                 form = 'v128'
-            elif '%xmm' in ops:
+            elif '%xmm' in opnds:
                 form = 'xmm'
-            elif '%mm' in ops:
+            elif '%mm' in opnds:
                 form = 'mm'
             else:
                 continue
             needs = mn[key][form]
             if not any(n in have for n in needs):
-                hits.append({'opcode': op, 'flags': '0x%x' % fv, 'line': line.strip(), 'needs': sorted(needs)})
-    return {'reproduced': bool(hits), 'tried': tried, 'offending_listing_lines': hits[:20],
-            'how': 'tools/isa_demo.c linked with the current tree: orc_program_compile_full(target, flags) + orc_program_get_asm_code'}
+                k = (hdr.split()[0], fv, mnem)
+                if k not in seen:
+                    seen.add(k)
+                    hits.append({'program': hdr, 'flags': '0x%x' % fv, 'line': line.strip(), 'needs': sorted(needs)})
+    return {'reproduced': bool(hits), 'programs_compiled': n_prog, 'offending_listing_lines': hits[:25],
+            'n_offending': len(hits),
+            'how': 'tools/isa_demo.c scan mode linked with the current tree: orc_program_compile_full(target, flags) for every flag subset + orc_program_get_asm_code, classified with spec/x86isa.py'}
 
 
 def units(tier, seed, only=None):
